@@ -187,6 +187,8 @@ def drive(prop: str, tier: str, seed: int, replay: str | None = None) -> int:
         parts.append(d)
 
     merged = merge(parts)
+    if hasattr(mod, 'derive'):
+        mod.derive(merged['counters'])
     known = load_known()
     known_keys = {k['key']: k for k in known.get('findings', []) if k['property'] == prop}
     new_viol, known_hit = [], collections.Counter()
@@ -231,7 +233,8 @@ def drive(prop: str, tier: str, seed: int, replay: str | None = None) -> int:
             print(f'VIOLATION property={prop} replay={path}')
         return 1
     if problems or gates_failed or merged['evaluations'] == 0:
-        reason = '; '.join(problems + gates_failed) or 'zero oracle evaluations'
+        uniq = list(dict.fromkeys(p.split(': ', 1)[-1][-400:] if p.startswith('shard') else p for p in problems))
+        reason = '; '.join(uniq[:3] + gates_failed) or 'zero oracle evaluations'
         print(f'INCONCLUSIVE property={prop} reason={common.short(reason, 3000)}')
         return 2
     return 0
